@@ -47,7 +47,7 @@ CIDRS = ["127.0.0.0/8", "127.0.0.1/32", "127.0.0.2/31", "10.0.0.0/8", "0.0.0.0/0
 def gen_atom(rng, reqs, listeners, ports):
     """returns (filter text, truth function Req -> True/False/None(error))"""
     q = rng.choice(reqs)
-    k = rng.randrange(16)
+    k = rng.randrange(18)
     if k == 0:
         l = rng.choice(listeners + ["nobody"])
         return 'request.listener == "%s"' % l, lambda r: r.listener == l
@@ -100,6 +100,12 @@ def gen_atom(rng, reqs, listeners, ports):
         import re
         rx = re.compile(pat.replace("\\\\", "\\"))
         return 'request.target.host =~ "%s"' % pat, lambda r: rx.search(r.thost) is not None
+    if k == 15:
+        # the pattern is computed from the request itself, so it differs from one request to the next
+        return 'request.target =~ to_string(request.target.port)', lambda r: True
+    if k == 16:
+        neg = rng.random() < 0.5
+        return 'request.target.type %s request.source.type' % ("!~" if neg else "=~"), lambda r: (r.ttype == r.stype) != neg
     # a filter that fails at run time for some requests: a host label that is not a number
     return 'to_integer(split(request.target.host, ".")[0]) == 127', lambda r: (r.thost.split(".")[0] == "127") if r.thost.split(".")[0].isdigit() else None
 
